@@ -627,15 +627,15 @@ def c08_battery(binary):
         return _memo[("c08", binary)]
     devs = []
 
-    def dropped(cwd, gargs, dargs, env):
+    def dropped(cwd, gargs, dargs, env, dcwd=None):
         g = subprocess.run([binary, "group"] + gargs, cwd=cwd, stdout=subprocess.PIPE, stderr=subprocess.PIPE, env=env, timeout=120)
-        r = subprocess.run([binary, "remove", "--dry-run"] + dargs, cwd=cwd, input=g.stdout, stdout=subprocess.PIPE, stderr=subprocess.PIPE, env=env, timeout=120)
+        r = subprocess.run([binary, "remove", "--dry-run"] + dargs, cwd=dcwd or cwd, input=g.stdout, stdout=subprocess.PIPE, stderr=subprocess.PIPE, env=env, timeout=120)
         if b"panicked" in r.stderr:
             return None
         return sorted(os.path.basename(l.decode(errors="replace").split()[-1].strip("'")) for l in r.stdout.splitlines() if l.startswith(b"rm "))
 
-    def check(tag, cwd, gargs, dargs, want, env):
-        got = dropped(cwd, gargs, dargs, env)
+    def check(tag, cwd, gargs, dargs, want, env, dcwd=None):
+        got = dropped(cwd, gargs, dargs, env, dcwd)
         if got is not None and got != sorted(want):
             devs.append({"scenario": tag, "group": gargs, "remove": dargs, "would_remove": got, "documented": sorted(want)})
 
@@ -652,6 +652,9 @@ def c08_battery(binary):
         os.symlink("a", os.path.join(w, "la"))
         for roots in (["a", "b", "c"], ["la", "b", "c"], ["b/../a", "b", "c"], ["./a/", "b", "c"]):
             check("isolate roots inherited from the header, roots spelled %s" % roots, w, ["--isolate"] + roots, [], ["z", "w"], env)
+        for roots in (["a", "b", "c"], ["./a", "b/", "c"]):
+            check("isolate roots inherited from a report with relative roots, remove run from another directory", w, ["--isolate"] + roots, [], ["z", "w"], env, dcwd=d)
+            check("isolate roots and -n 2 inherited, remove run from another directory", w, ["--isolate", "-n", "2"] + roots, [], ["w"], env, dcwd=d)
         check("isolate roots given to remove explicitly (relative)", w, ["a", "b", "c"], ["--isolate", "a", "--isolate", "b", "--isolate", "c"], ["z", "w"], env)
         check("isolate roots given to remove explicitly (absolute)", w, ["a", "b", "c"], ["--isolate", os.path.join(w, "a"), "--isolate", os.path.join(w, "b"), "--isolate", os.path.join(w, "c")], ["z", "w"], env)
         check("isolate roots given to remove explicitly (through a symlink)", w, ["a", "b", "c"], ["--isolate", os.path.join(w, "la"), "--isolate", os.path.join(w, "b"), "--isolate", os.path.join(w, "c")], ["z", "w"], env)
@@ -667,6 +670,8 @@ def c08_battery(binary):
         check("only files matching --name may be dropped", w, ["."], ["--name", "c"], ["c"], env)
         check("n = 2 inherited from the header, report order", w, ["-n", "2", "."], [], ["c"], env)
         check("--match-links inherited: every path is a replica", w, ["--match-links", "-n", "2", "."], [], ["b", "c"], env)
+        check("--match-links inherited from the header although -n is given to remove", w, ["--match-links", "."], ["-n", "2"], ["b", "c"], env)
+        check("--match-links inherited from the header, -n 3 given to remove", w, ["--match-links", "."], ["-n", "3"], ["c"], env)
         check("-n 2 given to remove overrides the header's n = 1", w, ["."], ["-n", "2"], ["c"], env)
         check("--rf-over 1 given to remove overrides the header's n = 2", w, ["-n", "2", "."], ["--rf-over", "1"], ["b", "c"], env)
         check("-n 3 given to remove: nothing is redundant", w, ["."], ["-n", "3"], [], env)
@@ -706,6 +711,15 @@ def c08_battery(binary):
         open(os.path.join(w3, b"b", b"p\xffc.jpg"), "wb").write(b"J" * 222)
         check("--keep-name protects a file whose name is not valid UTF-8", os.fsdecode(w3), ["."], ["--keep-name", "*.jpg"], ["orig.dat"], env)
         check("--name selects a file whose name is not valid UTF-8", os.fsdecode(w3), ["."], ["--name", "*.jpg", "--priority", "bottom"], [], env) if False else None
+        # ties under a nesting priority keep the report order (first listed kept)
+        w4 = os.path.join(d, "C4")
+        for sub in ("a", "b", "c", "deep/er"):
+            os.makedirs(os.path.join(w4, sub))
+        for sub, n in (("a", "t1"), ("b", "t2"), ("c", "t3"), ("deep/er", "t4")):
+            open(os.path.join(w4, sub, n), "wb").write(b"T" * 280)
+        check("--priority least-nested with three replicas at the same depth, -n 3", w4, ["."], ["-n", "3", "--priority", "least-nested"], ["t3"], env)
+        check("--priority least-nested with three replicas at the same depth, -n 2", w4, ["."], ["-n", "2", "--priority", "least-nested"], ["t2", "t3"], env)
+        check("--priority most-nested with three replicas at the same depth, -n 2", w4, ["."], ["-n", "2", "--priority", "most-nested"], ["t3", "t4"], env)
         check("chained priorities: the first one dominates", w, ["."], ["--priority", "least-recently-modified", "--priority", "most-nested"], ["k3", "k1"], env)
     finally:
         shutil.rmtree(d, ignore_errors=True)
